@@ -4,7 +4,7 @@
     BroadcastOperator, namespace-level operations); specification: Adapter/BroadcastSpec.v. *)
 From SioV Require Import Adapter.Rooms Adapter.RoomsProofs Adapter.Broadcast Adapter.BroadcastSpec
   Adapter.BroadcastProofs Adapter.BroadcastNspProofs Adapter.BroadcastCheck Adapter.Broadcast3x3
-  Adapter.BroadcastConc Adapter.BroadcastConcProofs.
+  Adapter.BroadcastConc Adapter.BroadcastConcProofs Adapter.BroadcastOrder.
 
 (** After ANY history of AddAll / Delete / DeleteAll (any sockets, any rooms, any length) the two
     indexes of the adapter are mutually inverse and no room is left with an empty socket set. *)
@@ -49,6 +49,19 @@ Theorem C04_broadcast_exact : forall (known : positive -> bool) (T E : gset posi
     (T = ∅ \/ exists r, r ∈ T /\ s ∈ room_sids st r) /\
     (forall r, r ∈ E -> s ∉ room_sids st r).
 Proof. exact apply_targets_exact. Qed.
+
+(** The same for ANY iteration order Go's maps may use: [Tl] enumerates the target rooms, [ord r]
+    the sockets of room r (repetitions allowed), [all] the registered sockets (duplicate-free). *)
+Theorem C04_broadcast_exact_any_order :
+  forall (known : positive -> bool) (T E : gset positive) (st : adapter)
+         (Tl : list positive) (ord : positive -> list positive) (all : list positive),
+  indexes_inverse st ->
+  (forall r, r ∈ Tl <-> r ∈ T) ->
+  (forall r x, a_rooms st !! r = Some x -> forall s, s ∈ ord r <-> s ∈ x) ->
+  NoDup all -> (forall s, s ∈ all <-> s ∈ dom (a_sids st)) ->
+  NoDup (apply_targets_ord known T E st Tl ord all) /\
+  forall s, s ∈ apply_targets_ord known T E st Tl ord all <-> selected known T E st s.
+Proof. exact apply_targets_ord_exact. Qed.
 
 (** ... hence after every namespace history a broadcast (issued by the namespace, or through
     socket `from` whose own-id room is then added to the exclusions) reaches exactly the sockets
